@@ -60,6 +60,10 @@ def main():
         props = [meta["property"]] + [p for p in meta.get("also_run", []) if p != meta["property"]]
         if meta.get("detected_by_property_check") and meta["detected_by_property_check"] not in props:
             props.append(meta["detected_by_property_check"])
+        if meta.get("superseded"):
+            # the change no longer breaks the property on the current tree (see meta.json: superseded)
+            rows.append((name, "superseded: " + meta["superseded"].get("by", ""), ""))
+            continue
         rc, o = run(f"git -C {repo} apply {d}/patch.diff")
         if rc != 0:
             rows.append((name, "patch does not apply", ""))
